@@ -20,7 +20,7 @@ import walkerlib
 
 def run(c):
     thorough = c.tier == "thorough"
-    c.rule = ("random histories (3-12 calls) of Engine.Run over a pool of 10 type-checked files (two of them exist only in memory, two are "
+    c.rule = ("random histories (3-12 calls) of Engine.Run over a pool of 13 type-checked files (two of them exist only in memory, two are "
               "packages of the same path whose equal-named types disagree) x 2 TruncateLen settings on one engine "
               "with a shared / nil / two pooled RunnerStates; a third of the calls have a Report callback that panics at a random "
               "report, a quarter run on a state into which stale left-overs were put (node path, dead flag, current function, "
@@ -31,7 +31,12 @@ def run(c):
               "if / else / && / || / loop / helper-function positions followed by a call of the same or another arity; plus, per "
               "(variant, file), the whole-file run vs. runs over each top-level declaration alone and over each top-level statement of every function body alone, "
               "and vs. a child process that runs rule sets, files and declarations in the opposite order; engines that grow (Load; Run; Load of "
-              "custom filters with helper functions; Run ... with nil / shared / pooled states) vs. fresh engines that loaded the same files; every report is one evaluation; "
+              "custom filters with helper functions; Run ... with nil / shared / pooled states) vs. fresh engines that loaded the same files; "
+              "type-pattern rules whose variables a failed match can leave bound ([$n]T, repeated $t, $*_ runs; all on sink($x)) over values of many "
+              "array lengths / map, func and struct shapes in shuffled orders; MatchComment rules whose regexps name their groups alike, the earlier "
+              "ones rejected by filters, over comments several of them match; per (variant, file) the whole rule set vs. the engines that have one "
+              "group each (rule locality); a quarter of the history calls are re-entrant: the Report callback starts further runs (nil / own / pooled "
+              "states, same or another goroutine, up to two levels) and every run of the tree is compared with the same run alone; every report is one evaluation; "
               "a case is non-trivial and distinct by (state kind, dirty?, panicking?, previous call's file = this file?, previous "
               "call panicked?), by generated rule kind that reported in a history, and by (rule kind, file) in the locality runs")
     c.trusted += walkerlib.TRUSTED + [
@@ -43,7 +48,7 @@ def run(c):
                 "left-overs of gogrep.MatcherState other than CapturePreset are outside the model"]
 
     c.build_theories()
-    c.require_theories("Ast/*.v", "Engine/RunState.v")
+    c.require_theories("Ast/*.v", "Engine/RunState.v", "Engine/Reentrant.v")
     ok = walkerlib.go2coq(c, "runnerstate", "Gen_RunnerState.v")
     inst_ok = False
     if ok:
@@ -69,7 +74,8 @@ def run(c):
                 for k, v in kinds.items():
                     c.coverage["generated_rules:" + k.split("/same")[0]] = c.coverage.get("generated_rules:" + k.split("/same")[0], 0) + v
                 fam = set(k.split("/")[0] + "/" + k.split("/")[1] for k in kinds if "/" in k)
-                if o["reports"] < 14 or "do/conditional-report-or-suggest" not in kinds or not {"contains/binder", "contains/free-variable"} <= fam or not any(k.startswith("variadic/") for k in fam):
+                if o["reports"] < 14 or "do/conditional-report-or-suggest" not in kinds or not {"contains/binder", "contains/free-variable"} <= fam or not any(k.startswith("variadic/") for k in fam) \
+                        or "typepattern/array-length-variable" not in kinds or not any(k.startswith("typepattern/repeated-variable") for k in kinds) or kinds.get("comment/named-groups", 0) < 6:
                     c.obligation("harness:history-rules", False, "rule groups dropped: %s; kinds %s" % (o.get("err"), sorted(kinds)))
                 continue
             if o.get("err"):
@@ -91,6 +97,20 @@ def run(c):
                     c.fail("oracle", "the reports inside a top-level declaration / a top-level statement of a function body depend on what was visited before it in the same run: " + o["mismatch"],
                            input={"rules": o.get("rules"), "file": (o.get("srcs") or [None])[0], "seed": seed, "variant": o.get("variant")},
                            expected="the run over the whole file reports, declaration by declaration (statement by statement), what a run over a file with only that declaration (only that statement in its function) reports",
+                           observed=o["mismatch"])
+                continue
+            if o["k"] == "rulelocal":
+                # rule locality: the whole rule set vs. the engines that have one group each
+                c.count(max(o["reports"], 1))
+                c.coverage["rule_locality_runs"] = c.coverage.get("rule_locality_runs", 0) + 1
+                for k, v in (o.get("kinds") or {}).items():
+                    if k != "fixed":
+                        c.nontriv(("rule-local", k.split("/same")[0], o["calls"][0]["file"]))
+                if o.get("mismatch"):
+                    c.fail("oracle", "what a rule reports depends on the rules loaded next to it: " + o["mismatch"],
+                           input={"rules": o.get("rules"), "file": (o.get("srcs") or [None])[0], "seed": seed, "variant": o.get("variant")},
+                           expected="every report of the whole rule set is, up to the rule's line number, a report of the engine that has only the rule's group; "
+                                    "the first group in load order that reports a node (a comment) alone is heard in the whole set",
                            observed=o["mismatch"])
                 continue
             if o["k"] == "grow":
@@ -123,8 +143,12 @@ def run(c):
             for k in (o.get("kinds") or {}):
                 if k != "fixed":
                     c.nontriv(("reported-in-history", k))
+            c.coverage["runs_started_from_report_callbacks"] = c.coverage.get("runs_started_from_report_callbacks", 0) + o.get("nested", 0)
             prev = None
             for call in (o.get("calls") or []):
+                if call.get("nested"):
+                    c.nontriv(("re-entrant", call["state"] if call["state"] in ("shared", "nil") else "pool", call["dirty"],
+                               "goroutine" in call["nested"], call["nested"].count("Run(")))
                 key = (call["state"] if call["state"] in ("shared", "nil") else "pool", call["dirty"], call["panic_at"] >= 0,
                        prev is not None and prev["file"] == call["file"], prev is not None and prev["panic_at"] >= 0)
                 if prev is not None:
@@ -142,6 +166,8 @@ def run(c):
         c.coverage["histories"] = c.coverage.get("histories", 0) + n
         if not c.coverage.get("cold_process_references") or not c.coverage.get("growing_engine_histories"):
             c.obligation("harness-run:history-cold-and-grow", False, "no cold-process reference / growing-engine history ran")
+        if not c.coverage.get("rule_locality_runs") or not c.coverage.get("runs_started_from_report_callbacks"):
+            c.obligation("harness-run:history-rule-locality-and-reentrancy", False, "no rule-locality run / no run started from a Report callback")
 
     def events(nrepo, nstd, ngen, size, tag, seed, variants):
         obs = walkerlib.run_events(c, hb, walkerlib.pick_files(c, nrepo, nstd), ngen, size, variants=variants, seed=seed)
